@@ -110,6 +110,7 @@ booted = []
 err = []  # 3.0.0 remove
 que = []
 per = []
+wakeup = []  # the pending timer of defer()
 suc = []  # 3.0.0 remove
 
 pipeline_paused = False  # not a constant so pylint: disable=invalid-name
@@ -321,15 +322,38 @@ def defer():
         return
 
     delay = []
-    for t in filter(
-        lambda j: j.get('status') not in [State.running, State.waiting], per
-    ):
+    for t in per:
+        # a node that is in the job queue right now is looked at again shortly;
+        # one that ran before is as eligible as one that never did (its status
+        # stays at waiting once it left the queue)
+        if any(job is t for job in que):
+            delay.append(60.0)
+            continue
+
         t.set('status', State.delayed)
-        for p in t.get('period'):
+        for i, p in enumerate(t.get('period')):
             try:
+                now = datetime.datetime.now(datetime.UTC)
                 ts = _delay(p).total_seconds()
 
-                if ts <= 300.0:
+                if ts > 300.0:
+                    delay.append(ts)
+                    continue
+
+                # the occurrence this delay points at (moments are whole
+                # seconds); each occurrence is queued once
+                occurrence = datetime.datetime.fromtimestamp(
+                    round(now.timestamp() + ts), datetime.UTC
+                )
+                fired = t.get('fired')
+
+                if fired is None:
+                    fired = {}
+                    t.set('fired', fired)
+
+                if fired.get(i) != occurrence:
+                    fired[i] = occurrence
+
                     if _is_asp(t):
                         t.get('todo').add('__all__')
                     else:
@@ -348,8 +372,16 @@ def defer():
                     log.debug(
                         'defer() - moving task %s to the job queue', t.tag
                     )
-                else:
-                    delay.append(ts)
+
+                # _delay() designates the next occurrence once the day of this
+                # one is over (a date that has passed has no next occurrence)
+                again = datetime.datetime.combine(
+                    occurrence.date() + datetime.timedelta(days=1),
+                    datetime.time(0, 0, 1),
+                    tzinfo=datetime.UTC,
+                )
+                if now < again:
+                    delay.append((again - now).total_seconds())
             except _DelayNotKnowableError:
                 pass
             pass
@@ -358,14 +390,21 @@ def defer():
     if delay:
         wait = min(delay)
         log.debug('defer() - next wake up time in %s seconds', str(round(wait)))
-        twisted.internet.reactor.callLater(
-            round(wait),
-            dawgie.pl.DeferWithLogOnError(
-                defer,
-                'handling error while scheduling periodic events',
-                __name__,
-            ).callback,
-            None,
+        # one wake-up at a time: every pass looks at all the events
+        while wakeup:
+            pending = wakeup.pop()
+            if pending.active():
+                pending.cancel()
+        wakeup.append(
+            twisted.internet.reactor.callLater(
+                max(1, round(wait)),
+                dawgie.pl.DeferWithLogOnError(
+                    defer,
+                    'handling error while scheduling periodic events',
+                    __name__,
+                ).callback,
+                None,
+            )
         )
         pass
     return
